@@ -63,6 +63,9 @@ def run(ctx):
                   'that was read', 'GD')
     from mstatic.rules import shared as _shc
     _shc.cas_primitive_reports_loss(ctx, r1)
+    _shc.facade_forwards_parameters(ctx, r1, names={
+        'update_scheduled_job', 'get_scheduled_jobs_to_start',
+        'delete_scheduled_job', 'get_scheduled_jobs_count'})
     cj = prog.func(DS + '._capture_scheduled_job')
     cfg = ctx.cfg(cj)
     up = U.calls_in(cfg, 'update_scheduled_job')
